@@ -56,7 +56,7 @@ fn replay(ctx: Ctx, r: Value) -> ! {
                 eprintln!("{}", l);
             }
             if let Some(v) = v {
-                ctx.violation("op", &v.sig, json!({"leg": "op", "config": op_cfg_json(&cfg), "ops": ops.iter().map(|o| o.name()).collect::<Vec<_>>(), "explanation": v.expl, "trace": trace}));
+                ctx.violation("op", &v.sig, json!({"leg": "op", "config": op_cfg_json(&cfg), "ops": ops.iter().map(|o| o.name()).collect::<Vec<_>>(), "what": v.expl, "trace": trace}));
             }
         }
         Some("task") => {
@@ -69,7 +69,7 @@ fn replay(ctx: Ctx, r: Value) -> ! {
                     }
                     for (s, e) in &rec.outcome.violations {
                         if *s == sig || !rec.outcome.violations.iter().any(|x| x.0 == sig) {
-                            ctx.violation("task", s, json!({"leg": "task", "config": d["config"], "choices": choices, "explanation": e, "log": rec.outcome.log}));
+                            ctx.violation("task", s, json!({"leg": "task", "config": d["config"], "choices": choices, "what": e}));
                         }
                     }
                 }
@@ -84,12 +84,12 @@ fn replay(ctx: Ctx, r: Value) -> ! {
 fn run_op_leg(ctx: &Ctx) {
     let t0 = Instant::now();
     let quick = ctx.quick();
-    let caps: Vec<usize> = if quick { vec![1, 2, 3] } else { vec![1, 2, 3, 4] };
-    let total = if quick { 8 } else { 12 };
-    let k = if quick { 3 } else { 4 };
-    let max_req = if quick { 3 } else { 4 };
+    let caps: Vec<usize> = if quick { vec![1, 2, 3] } else { vec![1, 2, 3, 4, 5] };
+    let total = if quick { 8 } else { 14 };
+    let k = if quick { 3 } else { 5 };
+    let max_req = if quick { 3 } else { 5 };
     let max_states: u64 = 6_000_000;
-    let budgets: Vec<usize> = if quick { BUDGETS.to_vec() } else { vec![2, 3, 4, 64] };
+    let budgets: Vec<usize> = if quick { BUDGETS.to_vec() } else { vec![2, 3, 4, 5, 64] };
     let mut cfgs = vec![];
     for &cap in &caps {
         for &budget in &budgets {
@@ -139,11 +139,6 @@ fn run_op_leg(ctx: &Ctx) {
         if !stats.fixpoint {
             leg.exhaustive = false;
         }
-        for p in stats.sample_paths.iter().take(1) {
-            if leg.samples.len() < 3 {
-                leg.samples.push(json!({"config": op_cfg_json(cfg), "ops": p.iter().map(|o| o.name()).collect::<Vec<_>>()}));
-            }
-        }
         per_cfg.push(json!({"config": op_cfg_json(cfg), "states": stats.states, "transitions": stats.transitions, "depth": stats.depth_reached,
             "fixpoint": stats.fixpoint, "capped": stats.capped, "states_with_a_pending_side": nt, "states_with_both_sides_pending": both_pending.load(Ordering::Relaxed),
             "wall_s": (tc.elapsed().as_secs_f64() * 1000.0).round() / 1000.0}));
@@ -158,18 +153,30 @@ fn run_op_leg(ctx: &Ctx) {
                 (Some(a), Some(b)) if a.sig == *sig && b.sig == *sig => {
                     found.insert(
                         sig.clone(),
-                        json!({"leg": "op", "config": op_cfg_json(cfg), "ops": path.iter().map(|o| o.name()).collect::<Vec<_>>(), "explanation": a.expl, "trace": trace}),
+                        json!({"leg": "op", "config": op_cfg_json(cfg), "ops": path.iter().map(|o| o.name()).collect::<Vec<_>>(), "what": a.expl, "trace": trace}),
                     );
                 }
                 _ => vcommon::machinery_failure(&format!("C12: nondeterminism: counterexample {:?} for {} does not reproduce", path, sig)),
             }
         }
     }
-    // a sample that exercises the waker hand-over, always the same one
-    let demo = [Op::Read(1), Op::Write(1), Op::Write(1), Op::Read(1)];
-    let (tr, _) = oplevel::run_traced(&cfgs[0], &demo);
-    leg.samples.push(json!({"config": op_cfg_json(&cfgs[0]), "ops": demo.iter().map(|o| o.name()).collect::<Vec<_>>(), "trace": tr}));
-    let mism = oplevel::BUDGET_MODEL_MISMATCHES.load(Ordering::Relaxed);
+    // samples: fixed operation lists (all of them are paths of the search) with their traces
+    let mism_before_samples = oplevel::BUDGET_MODEL_MISMATCHES.load(Ordering::Relaxed);
+    let demos: [&[Op]; 3] = [
+        // waker hand-over through the single slot: reader waits, writer fills, writer waits, reader drains
+        &[Op::Read(1), Op::Write(1), Op::Write(1), Op::Read(1)],
+        // budget 2: the second operation of a poll yields (self-woken Pending), data is not lost
+        &[Op::Write(1), Op::Write(1), Op::Read(2), Op::Read(1), Op::Write(1)],
+        // writer drops while the reader waits, then remaining bytes and EOF; reader drop -> BrokenPipe
+        &[Op::Write(1), Op::YieldW, Op::Read(3), Op::YieldR, Op::Read(1), Op::DropW, Op::Read(1)],
+    ];
+    for d in demos {
+        let (tr, v) = oplevel::run_traced(&cfgs[0], d);
+        if v.is_none() {
+            leg.samples.push(json!({"config": op_cfg_json(&cfgs[0]), "ops": d.iter().map(|o| o.name()).collect::<Vec<_>>(), "trace": tr}));
+        }
+    }
+    let mism = mism_before_samples;
     leg.bounds = json!({
         "capacities": caps, "budgets": budgets, "total_bytes_offered": total, "max_ops_per_logical_poll": k, "request_sizes": format!("0..={}", max_req),
         "depth": "unbounded (search runs until the frontier is empty)",
@@ -193,43 +200,26 @@ fn task_cfg_json(c: &TCfg) -> Value {
     json!({"capacity": c.cap, "budget": c.budget, "script": c.script.name})
 }
 
-fn run_task_leg(ctx: &Ctx) {
+/// Explore every (configuration, deviation bound) of `grid`. `wall_cap_s`: configurations that
+/// would start after the cap are not run and the leg is reported as not exhaustive.
+fn run_task_grid(ctx: &Ctx, name: &str, grid: &[(TCfg, u32)], wall_cap_s: f64, max_exec: u64, bound_desc: &str) {
     let t0 = Instant::now();
-    let quick = ctx.quick();
-    let scripts = tasklevel::scripts(!quick);
     let threads = vcommon::ncpu();
-    // (configuration, deviation bound)
-    let mut grid: Vec<(TCfg, u32)> = vec![];
-    for cap in [1usize, 2, 3] {
-        for budget in BUDGETS {
-            for s in &scripts {
-                let core = cap == 1 && budget != 3;
-                let d = match (quick, core) {
-                    (true, false) => 2,
-                    (true, true) => 3,
-                    (false, false) => 5,
-                    (false, true) => 6,
-                };
-                grid.push((TCfg { cap, budget, script: s.clone() }, d));
-            }
-        }
-    }
-    let wall_cap_s = if quick { 40.0 } else { 720.0 };
     let mut total = sched::ExploreStats::default();
     let mut per_cfg = vec![];
     let mut completed: BTreeMap<u32, u64> = BTreeMap::new();
     let mut exhaustive = true;
     let mut samples = vec![];
     let mut found: BTreeMap<String, Value> = BTreeMap::new();
-    for (cfg, d) in &grid {
+    for (cfg, d) in grid {
         if t0.elapsed().as_secs_f64() > wall_cap_s {
             exhaustive = false;
-            per_cfg.push(json!({"config": task_cfg_json(cfg), "skipped": "wall cap reached"}));
+            per_cfg.push(json!({"config": task_cfg_json(cfg), "deviation_bound": d, "not_run": "wall cap reached"}));
             continue;
         }
-        let st = sched::explore::<ChanWorld>(cfg, *d, if quick { 400_000 } else { 6_000_000 }, threads);
+        let st = sched::explore::<ChanWorld>(cfg, *d, max_exec, threads);
         if !st.machinery_errors.is_empty() {
-            vcommon::machinery_failure(&format!("C12 task leg: {}", st.machinery_errors[0]));
+            vcommon::machinery_failure(&format!("C12 {} leg: {}", name, st.machinery_errors[0]));
         }
         if st.capped {
             exhaustive = false;
@@ -248,23 +238,53 @@ fn run_task_leg(ctx: &Ctx) {
             match (a, b) {
                 (Ok(a), Ok(b)) if a.outcome.digest == b.outcome.digest && a.outcome.violations.iter().any(|x| &x.0 == sig) => {
                     let expl = a.outcome.violations.iter().find(|x| &x.0 == sig).map(|x| x.1.clone()).unwrap_or_default();
+                    // choices beyond the stored prefix are 0 (eager schedule): trailing zeros are redundant
+                    let mut choices = choices.clone();
+                    while choices.last() == Some(&0) {
+                        choices.pop();
+                    }
+                    let mut log = a.outcome.log.clone();
+                    if log.len() > 40 {
+                        let tail = log.split_off(log.len() - 10);
+                        log.truncate(20);
+                        log.push("...".into());
+                        log.extend(tail);
+                    }
                     found.insert(
                         sig.clone(),
-                        json!({"leg": "task", "config": task_cfg_json(cfg), "choices": choices, "schedule": a.labels, "explanation": expl, "log": a.outcome.log}),
+                        json!({"leg": "task", "config": task_cfg_json(cfg), "choices": choices, "what": expl, "log": log,
+                            "example": format!("byte_channel({}); tasks wrapped in RunWithBudget::with_budget({}); script {}; schedule choices {:?} (then eager)", cfg.cap, cfg.budget, cfg.script.name, choices)}),
                     );
                 }
                 _ => vcommon::machinery_failure(&format!("C12: nondeterminism: schedule {:?} of {:?} does not reproduce {}", choices, cfg, sig)),
             }
         }
-        if samples.len() < 3 && (cfg.budget == 2 || samples.is_empty()) {
+        if samples.len() < 3 && (cfg.budget <= 2 || samples.is_empty()) {
             if let Ok(rec) = sched::run_one::<ChanWorld>(cfg, &[], true) {
-                samples.push(json!({"config": task_cfg_json(cfg), "schedule": "canonical (all choices 0)", "log": rec.outcome.log}));
+                let mut log = rec.outcome.log;
+                if log.len() > 40 {
+                    log.truncate(40);
+                    log.push("...".into());
+                }
+                samples.push(json!({"config": task_cfg_json(cfg), "schedule": "canonical (all choices 0)", "log": log}));
             }
         }
         sched::merge(&mut total, st);
     }
+    let mut caps: Vec<usize> = grid.iter().map(|g| g.0.cap).collect();
+    caps.sort();
+    caps.dedup();
+    let mut budgets: Vec<usize> = grid.iter().map(|g| g.0.budget).collect();
+    budgets.sort();
+    budgets.dedup();
+    let mut scripts: Vec<&str> = vec![];
+    for g in grid {
+        if !scripts.contains(&g.0.script.name) {
+            scripts.push(g.0.script.name);
+        }
+    }
     let leg = Leg {
-        name: "task".into(),
+        name: name.into(),
         engine: "E1-sched".into(),
         states: total.distinct_digests,
         transitions: total.steps,
@@ -274,9 +294,10 @@ fn run_task_leg(ctx: &Ctx) {
         samples,
         exhaustive,
         bounds: json!({
-            "capacities": [1, 2, 3], "budgets": BUDGETS, "scripts": scripts.iter().map(|s| s.name).collect::<Vec<_>>(),
-            "deviation_bound": if quick { "2 on the whole grid, 3 for capacity 1 with budget 2 and 64" } else { "5 on the whole grid, 6 for capacity 1 with budget 2 and 64" },
+            "capacities": caps, "budgets": budgets, "scripts": scripts,
+            "deviation_bound": bound_desc,
             "configurations_completed_per_deviation_bound": completed.iter().map(|(d, n)| format!("d<={}: {}", d, n)).collect::<Vec<_>>(),
+            "configurations": grid.len(),
             "wall_cap_s": wall_cap_s,
             "per_configuration": per_cfg,
         }),
@@ -284,24 +305,104 @@ fn run_task_leg(ctx: &Ctx) {
     };
     ctx.add_leg(leg);
     for (sig, d) in found {
-        ctx.violation("task", &sig, d);
+        ctx.violation(name, &sig, d);
+    }
+}
+
+fn task_grid(scripts: &[tasklevel::Script], d_all: u32, d_core: u32) -> Vec<(TCfg, u32)> {
+    let mut grid = vec![];
+    for cap in [1usize, 2, 3] {
+        for budget in BUDGETS {
+            for s in scripts {
+                // core sub-grid: tightest capacity, smallest and default budget
+                let core = cap == 1 && budget != 3;
+                grid.push((TCfg { cap, budget, script: s.clone() }, if core { d_core } else { d_all }));
+            }
+        }
+    }
+    grid
+}
+
+fn run_task_legs(ctx: &Ctx) {
+    let quick = ctx.quick();
+    let scripts = tasklevel::scripts(!quick);
+    if quick {
+        run_task_grid(ctx, "task", &task_grid(&scripts, 2, 3), 45.0, 2_000_000, "2 on the whole grid, 3 for capacity 1 with budget 2 and 64");
+    } else {
+        run_task_grid(ctx, "task", &task_grid(&scripts, 4, 5), 1200.0, 20_000_000, "4 on the whole grid, 5 for capacity 1 with budget 2 and 64");
+        // one more deviation, for as many configurations as fit into the wall cap
+        run_task_grid(ctx, "task-deep", &task_grid(&scripts, 5, 6), 420.0, 20_000_000, "5 on the whole grid, 6 for capacity 1 with budget 2 and 64 (configurations in grid order until the wall cap)");
+    }
+    // The smallest budget the API accepts (NonZeroUsize 1), outside the designed grid {2,3,64}.
+    let b1 = TCfg { cap: 2, budget: 1, script: scripts[0].clone() };
+    run_task_grid(ctx, "task-budget1", &[(b1, 1)], 60.0, 100_000, "1 (single configuration: capacity 2, budget 1)");
+}
+
+/// Stand-alone reproduction of the budget-1 finding: public API only, no harness machinery.
+/// `C12_STANDALONE_PROBE=1 c12`
+fn standalone_budget1_probe() {
+    use std::future::Future;
+    use std::num::NonZeroUsize;
+    use std::task::{Context, Poll};
+    use swimos_byte_channel::{byte_channel, BudgetedFutureExt};
+    use tokio::io::AsyncWriteExt;
+    for budget in [1usize, 2] {
+        let (mut tx, _rx) = byte_channel(NonZeroUsize::new(8).unwrap());
+        let fut = async move { tx.write_all(&[1, 2, 3]).await }.with_budget(NonZeroUsize::new(budget).unwrap());
+        let mut fut = Box::pin(fut);
+        let flag = sched::WakeFlag::new(false);
+        let waker = flag.waker();
+        let mut cx = Context::from_waker(&waker);
+        let mut polls = 0;
+        let mut done = false;
+        while polls < 100_000 {
+            polls += 1;
+            flag.clear();
+            match fut.as_mut().poll(&mut cx) {
+                Poll::Ready(r) => {
+                    println!("budget {}: write_all of 3 bytes into an empty 8-byte channel finished after {} polls: {:?}", budget, polls, r.map_err(|e| e.kind()));
+                    done = true;
+                    break;
+                }
+                Poll::Pending => {
+                    if !flag.is_set() {
+                        println!("budget {}: Pending without wake after {} polls", budget, polls);
+                        done = true;
+                        break;
+                    }
+                }
+            }
+        }
+        if !done {
+            println!("budget {}: write_all of 3 bytes into an empty 8-byte channel still Pending (self-woken every time) after {} polls", budget, polls);
+        }
     }
 }
 
 fn main() {
+    if std::env::var("C12_STANDALONE_PROBE").is_ok() {
+        standalone_budget1_probe();
+        return;
+    }
     let ctx = Ctx::from_env("C12");
     // the subject's panics are caught and reported as violations; keep stderr readable
     std::panic::set_hook(Box::new(|_| {}));
     if let Some(r) = ctx.replay_request().cloned() {
         replay(ctx, r);
     }
-    run_op_leg(&ctx);
-    run_task_leg(&ctx);
+    // development aid: C12_LEGS=op or C12_LEGS=task runs a single engine (evidence is then partial)
+    let legs = std::env::var("C12_LEGS").unwrap_or_else(|_| "op,task".into());
+    if legs.contains("op") {
+        run_op_leg(&ctx);
+    }
+    if legs.contains("task") {
+        run_task_legs(&ctx);
+    }
     ctx.assume("op-level interleavings = thread interleavings: every access to a Conduit field (data, capacity, waker, closed) in channel/mod.rs happens between `self.inner.lock()` and the end of the same function (poll_read, poll_write, poll_flush, poll_shutdown, is_closed, both Drop impls), including `waker.wake()`; the only code outside the lock is the coop budget (thread-local) and `wake_by_ref` on the caller's own waker. Checked by reading the code; a change that moves work outside the lock is outside this check");
     ctx.assume("the coop budget is thread-local: the harness runs both logical tasks on one thread and restores each task's own residue through the public RunWithBudget::with_budget before every operation (op leg); the residue arithmetic (minus one per operation, yield at zero) is mirrored by the harness and every predicted yield is compared with the observed one (budget_model_mismatches in the evidence)");
     ctx.assume("the canonical key identifies the buffer content with (written, read) - guaranteed by the FIFO oracle on every earlier transition - and does not include the internal offset/allocation state of BytesMut; bytes::BytesMut is trusted");
     ctx.assume("a task waits only for the waker of its most recent poll (AsyncRead/AsyncWrite contract); every logical poll uses a fresh waker");
-    ctx.assume("bounds: one reader task and one writer task; capacities, request sizes, total bytes offered, operations per logical poll and (task leg) deviation bound as listed per leg; budget 1 is outside the grid");
+    ctx.assume("bounds: one reader task and one writer task; capacities, request sizes, total bytes offered, operations per logical poll and (task leg) deviation bound as listed per leg; budget 1 is outside the designed grid and has a leg of its own (task-budget1)");
     ctx.finish(
         "model_checking",
         "explicit-state search to a fixpoint over the real ByteReader/ByteWriter at operation level (no-lost-wake-up invariant in every state) plus deviation-bounded schedule exploration of real write_all/read_exact/FramedRead futures with drop faults",
